@@ -252,6 +252,8 @@ def attwild_cases(rng, thorough):
             shapes.append(("nested-group", "I %s %s" % (_wl(cj), _wl(ci)),
                            '<xs:element name="r"><xs:complexType><xs:attributeGroup ref="t:g1"/></xs:complexType></xs:element>%s%s'
                            % (grp("g1", ti, '<xs:attributeGroup ref="t:g0"/>'), grp("g0", tj))))
+    # witness of C08-attwild-emptyunion first: (##other /\ ##local) \/ ##other
+    triples = [(1, 2, 1)] + [t for t in triples if t != (1, 2, 1)]
     for i, j, k in triples:
         (ci, ti), (cj, tj), (ck, tk) = WLEAVES[i], WLEAVES[j], WLEAVES[k]
         shapes.append(("local+2groups", "I %s I %s %s" % (_wl(ci), _wl(cj), _wl(ck)),
